@@ -100,7 +100,25 @@ func (e *Engine) prepareContract(ct *Contract) (*ssa.Function, error) {
 			return nil, err
 		}
 	}
+	bodyPos := pos
+	loopPosFor := func(k string) token.Pos {
+		var ord int
+		if _, err := fmt.Sscanf(k, "%d", &ord); err != nil {
+			return bodyPos
+		}
+		tmp := &FuncCtx{eng: e, cutInfo: map[*ssa.Function]*CutInfo{}}
+		ci := tmp.cuts(fn)
+		for h, o := range ci.heads {
+			if o == ord {
+				if p := e.loopScopePos(fn, h); p.IsValid() {
+					return p
+				}
+			}
+		}
+		return bodyPos
+	}
 	for k := range ct.Invariants {
+		pos = loopPosFor(k)
 		for i := range ct.Invariants[k] {
 			if err := chk(&ct.Invariants[k][i], extra, "invariant"); err != nil {
 				return nil, err
@@ -108,6 +126,7 @@ func (e *Engine) prepareContract(ct *Contract) (*ssa.Function, error) {
 		}
 	}
 	for k := range ct.Decreases {
+		pos = loopPosFor(k)
 		for i := range ct.Decreases[k] {
 			if err := chk(&ct.Decreases[k][i], extra, "decreases"); err != nil {
 				return nil, err
@@ -366,6 +385,10 @@ func (fx *FuncCtx) bindLoopLocals(env *SpecEnv, st *State, f *Frame) {
 			continue
 		}
 		if lp, ok := v.(localAddr); ok {
+			if env.addrs == nil {
+				env.addrs = map[string]PtrVal{}
+			}
+			env.addrs[name] = lp.P
 			env.vars[name] = st.Load(lp.P, nil)
 		} else {
 			env.vars[name] = v
@@ -376,3 +399,54 @@ func (fx *FuncCtx) bindLoopLocals(env *SpecEnv, st *State, f *Frame) {
 type localAddr struct{ P PtrVal }
 
 var _ = strings.Contains
+
+// loopScopePos returns a position inside the body of the source loop statement whose head is blk,
+// so that loop clauses can mention variables declared in the for statement.
+func (e *Engine) loopScopePos(fn *ssa.Function, head *ssa.BasicBlock) token.Pos {
+	syn, ok := fn.Syntax().(*ast.FuncDecl)
+	if !ok || syn.Body == nil {
+		return token.NoPos
+	}
+	var p token.Pos
+	for _, in := range head.Instrs {
+		if _, isPhi := in.(*ssa.Phi); isPhi {
+			continue
+		}
+		if _, isDbg := in.(*ssa.DebugRef); isDbg {
+			continue
+		}
+		if in.Pos().IsValid() {
+			p = in.Pos()
+			break
+		}
+	}
+	if !p.IsValid() {
+		return token.NoPos
+	}
+	var best ast.Node
+	var bestBody *ast.BlockStmt
+	ast.Inspect(syn.Body, func(n ast.Node) bool {
+		if n == nil {
+			return false
+		}
+		var body *ast.BlockStmt
+		switch x := n.(type) {
+		case *ast.FuncLit:
+			return false
+		case *ast.ForStmt:
+			body = x.Body
+		case *ast.RangeStmt:
+			body = x.Body
+		}
+		if body != nil && n.Pos() <= p && p <= n.End() {
+			if best == nil || (n.End()-n.Pos()) < (best.End()-best.Pos()) {
+				best, bestBody = n, body
+			}
+		}
+		return true
+	})
+	if bestBody == nil {
+		return token.NoPos
+	}
+	return bestBody.Lbrace + 1
+}
